@@ -437,9 +437,11 @@ func (e *env) genTrace(q *query, block bool) {
 			req := &evmtypes.QueryTraceBlockRequest{Txs: rec.EthMsgs, TraceConfig: tc.cfg, BlockNumber: rec.Height, BlockHash: hex.EncodeToString(rec.Hash), BlockTime: rec.Time, ProposerAddress: rec.Proposer}
 			q.Kind, q.Path, q.Data, q.Sub = "evm/TraceBlock", "/ethermint.evm.v1.Query/TraceBlock", mustMarshal(req), "recorded-block"
 			q.Desc["txs"] = len(rec.EthMsgs)
+			// (a trace replays the Ethereum transactions only: judged against the execution when no Cosmos-lane transaction
+			// stands ahead of any of them in the block)
 			all := true
-			for _, x := range rec.EthExec {
-				all = all && x
+			for k, x := range rec.EthExec {
+				all = all && x && rec.EthClean[k]
 			}
 			if all && strings.HasPrefix(tc.name, "struct-") {
 				q.Desc["executed_gas_used_per_tx"] = append([]uint64{}, rec.EthGas...)
@@ -450,12 +452,13 @@ func (e *env) genTrace(q *query, block bool) {
 			q.Kind, q.Path, q.Data, q.Sub = "evm/TraceTx", "/ethermint.evm.v1.Query/TraceTx", mustMarshal(req), "recorded-tx"
 			q.Desc["predecessors"] = i
 			// every predecessor executed and so did the traced one: the trace re-executes exactly what the block did
-			all := rec.EthExec[i]
+			all := rec.EthExec[i] && rec.EthClean[i]
 			for k := 0; k < i; k++ {
 				all = all && rec.EthExec[k]
 			}
 			if all && strings.HasPrefix(tc.name, "struct-") {
 				q.Desc["executed_gas_used"] = rec.EthGas[i]
+				q.Desc["executed_gas_used_of_predecessors"] = append([]uint64{}, rec.EthGas[:i]...)
 			}
 		}
 		return
